@@ -56,6 +56,12 @@ class Result(object):
             fn(*args)
         except AnalysisError as e:
             self.errors.append('%s: %s %s' % (fn.__name__, e.anchor, e.why))
+        except Exception as e:      # a bug in one rule must not hide others
+            import traceback
+            tb = traceback.extract_tb(e.__traceback__)[-1]
+            self.errors.append('%s: internal %s: %s (%s:%d)' % (
+                fn.__name__, type(e).__name__, e,
+                os.path.basename(tb.filename), tb.lineno))
 
     def rule(self, rid, text):
         self.rules[rid] = text
